@@ -8,13 +8,17 @@ sys.path.insert(0, os.path.dirname(os.path.abspath(__file__)))
 import kv
 
 
-def load_unit(name, repo=None, probe=False):
+def load_unit(name, repo=None, probe=False, hints_off=None, drop_asserts=None):
     p = os.path.join(kv.VERIF, 'contracts', 'units', name + '.py')
     spec = importlib.util.spec_from_file_location(name, p)
     m = importlib.util.module_from_spec(spec)
     spec.loader.exec_module(m)
     import weave
     weave.HINTS_OFF.clear()
+    weave.HINTS_OFF.update(hints_off or {})
+    weave.DROP_ASSERTS.clear()
+    weave.DROP_ASSERTS.update(drop_asserts or {})
+    weave.DROPPED_ASSERTS.clear()
     for _attempt in range(12):
         u = kv.Unit(name, repo=repo, probe=probe)
         try:
@@ -26,10 +30,48 @@ def load_unit(name, repo=None, probe=False):
     else:
         raise kv.Undecided('proof hints lost in too many functions: %s' % sorted(weave.HINTS_OFF))
     u.hints_off = dict(weave.HINTS_OFF)
+    u.dropped_asserts = set(weave.DROPPED_ASSERTS)
     weave.HINTS_OFF.clear()
+    weave.DROP_ASSERTS.clear()
     u.serves = m.SERVES
     u.verus_flags = getattr(m, 'VERUS_FLAGS', [])
     return u
+
+
+def verify_unit(name, repo=None, probe=False, rlimit=30, log_air=False, suffix=''):
+    """Build, erasure-check, verify and classify one unit.  When an assertion inside an anchored proof hint fails, the
+    hint no longer fits the (changed) code: the unit is rebuilt once with the hints of those functions switched off and
+    verified again, so that the obligations themselves decide (weave.HintLost explains what happens to failures then)."""
+    hints_off, drop = None, {}
+    for _round in range(4):
+        u = load_unit(name, repo=repo, probe=probe, hints_off=hints_off, drop_asserts=drop)
+        u.assemble()
+        u.write(suffix)
+        ntok = u.erasure_check()
+        res = kv.run_verus(u.gen_path, flags=u.verus_flags, rlimit=rlimit, log_air=log_air)
+        fails, und = kv.classify(u, res)
+        bad = [f for f in fails if f.get('hint_failed') and f['fn'] and f['fn'] not in u.hints_off]
+        if not bad or probe:
+            break
+        # first choice: strip exactly the assertion that failed (a failed assert is assumed afterwards, which hides the
+        # obligation it was meant to help) and let the obligations decide with every other hint in place; if the text
+        # cannot be located in a hint of that function, switch all anchored hints of the function off instead
+        hints_off = dict(u.hints_off)
+        for f in bad:
+            e = f.get('assert_text')
+            if e and (f['fn'], e) not in u.dropped_asserts and e not in drop.get(f['fn'], []):
+                drop.setdefault(f['fn'], []).append(e)
+            else:
+                hints_off[f['fn']] = 'an assertion inside a proof hint of this function no longer holds'
+    u.stripped_hint_asserts = sorted('%s: assert(%s)' % x for x in u.dropped_asserts)
+    # a hint assertion that still fails (function already without anchored hints: it sits in a body_start hint) is not attributable
+    kept = []
+    for f in fails:
+        if f.get('hint_failed'):
+            und.append('an assertion inside a proof hint of %s failed: not attributable' % f['fn'])
+        else:
+            kept.append(f)
+    return u, res, kept, und, ntok
 
 
 if __name__ == '__main__':
